@@ -74,11 +74,19 @@ def make_cfg(constants, init='Init', next_='Next', invariants=(), properties=(),
 class Workdir:
     """Scratch directory holding symlinks to all spec modules; removed at exit."""
 
-    def __init__(self):
+    def __init__(self, salt=None):
+        """salt: value of spec/Salt.tla's SaltValue in this scratch directory (None: VERIF_SEED, default 0)"""
         self.path = tempfile.mkdtemp(prefix='verif_tlc_')
+        if salt is None:
+            salt = int(os.environ.get('VERIF_SEED', '0') or 0)
+        self.salt = int(salt)
         for f in os.listdir(SPEC_DIR):
             if f.endswith('.tla'):
-                os.symlink(os.path.join(SPEC_DIR, f), os.path.join(self.path, f))
+                if f == 'Salt.tla' and self.salt != 0:
+                    with open(os.path.join(self.path, f), 'w') as g:
+                        g.write('---- MODULE Salt ----\nSaltValue == %d\n====\n' % self.salt)
+                else:
+                    os.symlink(os.path.join(SPEC_DIR, f), os.path.join(self.path, f))
 
     def __enter__(self):
         return self
@@ -149,13 +157,13 @@ def parse_coverage(stdout):
 
 
 def run_sharded(base, constants, nshards, tag='gen', parallel=None, marker='@@CASE', invariants=(),
-                properties=(), constraints=(), init='Init', next_='Next', **kw):
+                properties=(), constraints=(), init='Init', next_='Next', salt=None, **kw):
     """Run `nshards` single-worker TLC processes of module `base` (constants + Shard/NShards) in
     parallel.  Returns (cases, stats)."""
     parallel = parallel or int(os.environ.get('VERIF_PROCS', '16'))
     cases = []
     stats = dict(generated=0, distinct=0, wall=0.0, runs=0, depth=0)
-    with Workdir() as wd:
+    with Workdir(salt) as wd:
         def one(s):
             c = dict(constants)
             if 'Seeds' in c:       # VERIF_SEED shifts the fill seeds of the generated operands
